@@ -365,6 +365,8 @@ class VQueue:
             if not s.block_until(lambda: len(self.queue) > 0, timeout, what=f'get({self.name})'):
                 if self.log:
                     s.ev('q_get_timeout', self.name, None)
+                if getattr(s, 'extra_yields', False):
+                    s.yield_point('q.get.expired')    # a real thread can be pre-empted right after the wait expired
                 raise _rq.Empty
         item = self.queue.popleft()
         if self.log:
